@@ -8,10 +8,16 @@ tables / block times) from an arbitrary initial configuration — `Reachable`.
 Sub-claims the code (and therefore the model) does NOT satisfy are refuted on concrete witnesses:
  * `payout_wrong_receiver_witness`  (an owner with locks naming different receivers: all go to the first lock's receiver),
  * `finishes_without_paying_witness` (a gauge without a qualifying lock in its last epoch finishes with unpaid epochs),
- * `spam_rule_skips_payout_witness`  (a gauge whose remainder is one coin of ≤ 100 units pays nothing, whatever the minimum).
+ * `spam_rule_skips_payout_witness`  (a gauge whose remainder is one coin of ≤ 100 units pays nothing, whatever the minimum),
+ * `zero_converted_minimum_skips_later_locks_witness`, `zero_converted_minimum_starves_later_gauge_witness` (a reward denom
+   whose converted minimum is 0: the zero is also the cache's "no route" sentinel, so only the first lock that meets the
+   denom in the epoch is paid; `zero_quote_pays_first_lock_only` shows this for every input),
+ * `failing_minimum_quote_blocks_every_gauge_witness` (a route whose pool cannot quote the minimum fails the whole hook),
+ * `topup_accepted_by_finished_gauge_witness` (a gauge of the finished store with unpaid epochs accepts deposits it never pays).
+The positive counterpart: `min_value_filter`, `lock_payout_exact_of_nonzero_quote`, `epoch_pays_clause_of_no_zero_quote`.
 Out of scope (not modelled, not generated): NoLock/CL gauges, group gauges, synthetic denoms.
 -/
-import OsmoVerif.Proofs.IncentivesEpoch
+import OsmoVerif.Proofs.IncentivesMinValue
 
 namespace OsmoVerif.Props.C09
 open OsmoVerif.Incentives
@@ -35,7 +41,7 @@ theorem module_balance_ge_undistributed {s : State} (h : Reachable s) (d : Denom
   unfold rem; omega
 
 /-- what an epoch sends leaves the module account, and nothing else does. -/
-theorem epoch_module_pays_what_is_sent {s s' : State} {now : Int} {thr : Thr} {locks : List Lock} {info : Info}
+theorem epoch_module_pays_what_is_sent {s s' : State} {now : Int} {thr : Quotes} {locks : List Lock} {info : Info}
     (hr : Reachable s) (h : epoch s now thr locks = some (s', info)) (d : Denom) :
     amountOf s'.balance d = amountOf s.balance d - amountOf (infoTotal info) d := by
   have hi := (reachable_inv hr).1
@@ -46,22 +52,25 @@ theorem epoch_module_pays_what_is_sent {s s' : State} {now : Int} {thr : Thr} {l
 
 /-! ## the per-epoch payout -/
 
-/-- **epoch payout formula.**  When an active lock gauge is processed (`distributeGauge` writes its record):
-the per-epoch divisor is `e` = 1 for perpetual gauges and `numEpochs − filled` otherwise; unless the gauge has
-nothing left or falls under the spam rule, EVERY qualifying lock (`gaugeLocks`: gauge denom, duration ≥ gauge
-duration, unlocking or not) gets one queue entry addressed to its reward receiver (owner when unset) holding,
-per reward denom, exactly `owedToLock` — the floor of remaining·lockAmt/(lockSum·e) unless filtered — and no
-entry at all when every denom is filtered; the gauge's newly distributed total is the sum of these entries. -/
-theorem epoch_payout_formula {thr : Thr} {locks : List Lock} {g : Gauge} {total : Coins} {pays : List Pay}
-    (hg : GInv g) (h : distributeGauge thr locks g = some (some (total, pays))) :
+/-- **epoch payout formula.**  When an active lock gauge is processed (`distributeGauge` writes its record) with
+the minimum-value cache `m` it finds: the per-epoch divisor is `e` = 1 for perpetual gauges and `numEpochs − filled`
+otherwise; unless the gauge has nothing left or falls under the spam rule, EVERY qualifying lock (`gaugeLocks`:
+gauge denom, duration ≥ gauge duration, unlocking or not) gets one queue entry addressed to its reward receiver
+(owner when unset) holding, per reward denom, exactly `owedToLock` — the floor of remaining·lockAmt/(lockSum·e)
+unless filtered — and no entry at all when every denom is filtered; the FIRST lock is filtered with the cache as the
+gauge found it (`minFilter m`), every later lock with the cache after the first lock (`minFilter (m.after remain)`);
+the gauge's newly distributed total is the sum of these entries.  What the two filters are: `min_value_filter`. -/
+theorem epoch_payout_formula {m : MinVal} {locks : List Lock} {g : Gauge} {total : Coins} {pays : List Pay}
+    (hg : GInv g) (h : distributeGauge m locks g = some (some (total, pays))) :
     ∃ remain e, subCoins g.coins g.distributed = some remain ∧ (∀ d, amountOf remain d = rem g d) ∧
       remainEpochs g = some e ∧ e = (if g.perpetual then 1 else (g.numEpochs : Int) - (g.filled : Int)) ∧ 1 ≤ e ∧
       (((remain.isEmpty = true ∨ isSpam remain = true) ∧ total = [] ∧ pays = []) ∨
-       (remain.isEmpty = false ∧ isSpam remain = false ∧ 0 < lockSum (gaugeLocks g locks) ∧
-        pays = (gaugeLocks g locks).filterMap (payOf thr remain (lockSum (gaugeLocks g locks) * e)) ∧
+       (remain.isEmpty = false ∧ isSpam remain = false ∧ 0 < lockSum (gaugeLocks g locks) ∧ m.fails remain = false ∧
+        pays = ((gaugeLocks g locks).take 1).filterMap (payOf (minFilter m) remain (lockSum (gaugeLocks g locks) * e)) ++
+               ((gaugeLocks g locks).drop 1).filterMap (payOf (minFilter (m.after remain)) remain (lockSum (gaugeLocks g locks) * e)) ∧
         total = sumPays pays ∧
-        ∀ (l : Lock) (d : Denom), amountOf (lockCoins thr remain (lockSum (gaugeLocks g locks) * e) l.amount) d =
-          owedToLock thr d (rem g d) l.amount (lockSum (gaugeLocks g locks)) e)) := by
+        ∀ (f : Filter) (l : Lock) (d : Denom), amountOf (lockCoins f remain (lockSum (gaugeLocks g locks) * e) l.amount) d =
+          owedToLock f d (rem g d) l.amount (lockSum (gaugeLocks g locks)) e)) := by
   obtain ⟨remain, e, hrem, he, _, hcase⟩ := distributeGauge_written h
   obtain ⟨hrv, hra⟩ := subCoins_spec hg.vc hg.vd hrem
   have hra' : ∀ d, amountOf remain d = rem g d := fun d => by rw [hra d]; rfl
@@ -74,10 +83,10 @@ theorem epoch_payout_formula {thr : Thr} {locks : List Lock} {g : Gauge} {total 
       · cases he; rw [if_neg hp]
       · cases he
   refine ⟨remain, e, hrem, hra', he, hee, remainEpochs_pos he, ?_⟩
-  rcases hcase with hskip | ⟨h1, h2, hS, hp, ht⟩
+  rcases hcase with hskip | ⟨h1, h2, hS, hf, hp, ht⟩
   · exact Or.inl hskip
-  · refine Or.inr ⟨h1, h2, hS, by rw [hp, lockPays_eq_filterMap], ht, fun l d => ?_⟩
-    rw [lockCoins_amount thr hrv, hra' d]
+  · refine Or.inr ⟨h1, h2, hS, hf, by rw [hp, lockPays_eq_filterMap], ht, fun f l d => ?_⟩
+    rw [lockCoins_amount f hrv, hra' d]
     have hR : 0 ≤ rem g d := by have := hg.le d; unfold rem; omega
     have hsh : share (rem g d) l.amount (lockSum (gaugeLocks g locks) * e) =
         floorShare (rem g d) l.amount (lockSum (gaugeLocks g locks)) e := by
@@ -94,42 +103,148 @@ theorem qualifying_locks (g : Gauge) (locks : List Lock) (l : Lock) :
   | nil => simp
   | cons c cs => simp [qualifies]
 
-/-- **receipts of one epoch.**  The gauges processed are exactly the active ones after activation; the send
-queue is the fold of their entries; the module account is debited by exactly the queued total; and when every
-owner's qualifying locks name ONE receiver, every address receives exactly the entries addressed to it (so
-nobody else gets anything). -/
-theorem epoch_receipts {s s' : State} {now : Int} {thr : Thr} {locks : List Lock} {info : Info}
+/-- the gauges one epoch processes are exactly the active ones after activation (each once), and the gauge loop
+runs over them from the stored records with an EMPTY minimum-value cache. -/
+theorem epoch_snapshot {s s' : State} {now : Int} {thr : Quotes} {locks : List Lock} {info : Info}
     (hr : Reachable s) (h : epoch s now thr locks = some (s', info)) :
     ∃ snap : List Gauge, (∀ g ∈ snap, g ∈ s.gauges) ∧ (snap.map (·.id)).Nodup ∧
       (∀ i, i ∈ snap.map (·.id) ↔ i ∈ refsIds s.active ∨
           (i ∈ refsIds s.upcoming ∧ i ∉ refsIds (s.upcoming.filter (fun kv => decide (now < kv.1))))) ∧
-      info = (snapPays thr locks snap).foldl addLockRewards [] ∧
-      (∀ d, amountOf (infoTotal info) d = paysAmt (snapPays thr locks snap) d) ∧
-      (Consistent (snapPays thr locks snap) → ∀ r d, recvAmt info r d = paysTo (snapPays thr locks snap) r d) := by
+      distributeLoop ⟨thr, []⟩ locks snap s.gauges [] = some (s'.gauges, info) := by
   have hi := (reachable_inv hr).1
   obtain ⟨up, act, snap, store, bal, act', fin, h1, h2, h3, h4, h5, rfl⟩ := epoch_unfold h
   have F := epochFacts hi h1 h2 h5
+  refine ⟨snap, F.snapMem, F.snapNodup, fun i => ?_, h3⟩
+  rw [F.snapIds, ← F.upEq]
+  constructor
+  · intro hia
+    rcases F.actFrom i hia with hu | ha
+    · exact Or.inr ⟨hu, F.actNotUp i hia⟩
+    · exact Or.inl ha
+  · rintro (ha | ⟨hu, hnu⟩)
+    · exact F.keepActive i ha
+    · rcases activate_split h1 i hu with h' | h'
+      · exact absurd h' hnu
+      · exact h'
+
+/-- **receipts of one epoch.**  The gauges processed are exactly the active ones after activation; the send
+queue is the fold of their entries; the module account is debited by exactly the queued total; and when every
+owner's qualifying locks name ONE receiver, every address receives exactly the entries addressed to it (so
+nobody else gets anything). -/
+theorem epoch_receipts {s s' : State} {now : Int} {thr : Quotes} {locks : List Lock} {info : Info}
+    (hr : Reachable s) (h : epoch s now thr locks = some (s', info)) :
+    ∃ snap : List Gauge, (∀ g ∈ snap, g ∈ s.gauges) ∧ (snap.map (·.id)).Nodup ∧
+      (∀ i, i ∈ snap.map (·.id) ↔ i ∈ refsIds s.active ∨
+          (i ∈ refsIds s.upcoming ∧ i ∉ refsIds (s.upcoming.filter (fun kv => decide (now < kv.1))))) ∧
+      info = (snapPays ⟨thr, []⟩ locks snap).foldl addLockRewards [] ∧
+      (∀ d, amountOf (infoTotal info) d = paysAmt (snapPays ⟨thr, []⟩ locks snap) d) ∧
+      (Consistent (snapPays ⟨thr, []⟩ locks snap) → ∀ r d, recvAmt info r d = paysTo (snapPays ⟨thr, []⟩ locks snap) r d) := by
+  obtain ⟨snap, k1, k2, k3, h3⟩ := epoch_snapshot hr h
   have hinfo := distributeLoop_info h3
-  refine ⟨snap, F.snapMem, F.snapNodup, fun i => ?_, hinfo, fun d => ?_, fun hc r d => ?_⟩
-  · rw [F.snapIds, ← F.upEq]
-    constructor
-    · intro hia
-      rcases F.actFrom i hia with hu | ha
-      · exact Or.inr ⟨hu, F.actNotUp i hia⟩
-      · exact Or.inl ha
-    · rintro (ha | ⟨hu, hnu⟩)
-      · exact F.keepActive i ha
-      · rcases activate_split h1 i hu with h' | h'
-        · exact absurd h' hnu
-        · exact h'
+  refine ⟨snap, k1, k2, k3, hinfo, fun d => ?_, fun hc r d => ?_⟩
   · rw [hinfo, amountOf_infoTotal_foldl]; simp [infoTotal, amountOf]
   · rw [hinfo, recvAmt_foldl hc (fun e he => absurd he List.not_mem_nil)]; simp [recvAmt]
+
+/-! ## the minimum-value filter ("skipping only amounts worth less than the configured minimum, or not valuable at all") -/
+
+/-- **what the filter decides**, for every cache state `m` a `Distribute` call can be in (`CacheOK`: cached values
+are the call's own quotes): for the minimum-value denom itself and for every denom whose converted minimum `v` is
+NOT zero, an amount passes iff `v ≤ amount` — the property's clause; a denom without route (or whose quote fails)
+never passes; a non-base denom whose converted minimum IS zero passes only while it is not cached. -/
+theorem min_value_filter {m : MinVal} (hc : CacheOK m) (d : Denom) (a : Int) :
+    (∀ v, assoc m.quotes d = some (some v) → (d = Gen.Incentives.BaseCoinUnit ∨ v ≠ 0) → minFilter m d a = decide (v ≤ a)) ∧
+    ((assoc m.quotes d = none ∨ assoc m.quotes d = some none) → minFilter m d a = false) ∧
+    (d ≠ Gen.Incentives.BaseCoinUnit → assoc m.quotes d = some (some 0) →
+      minFilter m d a = ((assoc m.cache d).isNone && decide (0 ≤ a))) :=
+  ⟨fun _ hq hv => minFilter_clause hc hq hv a, fun hq => minFilter_no_value hc hq a, fun hb hq => minFilter_zero_quote hc hb hq a⟩
+
+/-- **payouts of a denom whose converted minimum is not zero are exactly the floor shares worth the minimum**: for
+a processed gauge (any consistent cache state, whatever the OTHER denoms are quoted at) every lock — the first one
+and the later ones — receives of denom `d` exactly ⌊remaining·lockAmt/(lockSum·e)⌋ when that is at least the
+converted minimum `v` (and positive), and nothing otherwise. -/
+theorem lock_payout_exact_of_nonzero_quote {m : MinVal} (hc : CacheOK m) {locks : List Lock} {g : Gauge} {total : Coins}
+    {pays : List Pay} (hg : GInv g) (h : distributeGauge m locks g = some (some (total, pays))) {d : Denom} {v : Int}
+    (hq : assoc m.quotes d = some (some v)) (hv : d = Gen.Incentives.BaseCoinUnit ∨ v ≠ 0) :
+    ∃ remain e, subCoins g.coins g.distributed = some remain ∧ remainEpochs g = some e ∧ ∀ l : Lock,
+      amountOf (lockCoins (minFilter m) remain (lockSum (gaugeLocks g locks) * e) l.amount) d =
+        owedToLock (fun _ a => decide (v ≤ a)) d (rem g d) l.amount (lockSum (gaugeLocks g locks)) e ∧
+      amountOf (lockCoins (minFilter (m.after remain)) remain (lockSum (gaugeLocks g locks) * e) l.amount) d =
+        owedToLock (fun _ a => decide (v ≤ a)) d (rem g d) l.amount (lockSum (gaugeLocks g locks)) e := by
+  obtain ⟨remain, e, hrem, he, _, _⟩ := distributeGauge_written h
+  obtain ⟨hrv, hra⟩ := subCoins_spec hg.vc hg.vd hrem
+  refine ⟨remain, e, hrem, he, fun l => ?_⟩
+  have hR : 0 ≤ rem g d := by have := hg.le d; unfold rem; omega
+  have hsh : share (amountOf remain d) l.amount (lockSum (gaugeLocks g locks) * e) =
+      floorShare (rem g d) l.amount (lockSum (gaugeLocks g locks)) e := by
+    have : amountOf remain d = rem g d := by rw [hra d]; rfl
+    rw [this]
+    unfold share floorShare
+    exact Int.tdiv_eq_ediv_of_nonneg (Int.mul_nonneg hR (Int.natCast_nonneg _))
+  have hc' := CacheOK_after hc remain
+  have hq' : assoc (m.after remain).quotes d = some (some v) := by rw [MinVal.after_quotes]; exact hq
+  constructor
+  · rw [lockCoins_amount _ hrv, hsh, minFilter_clause hc hq hv]; rfl
+  · rw [lockCoins_amount _ hrv, hsh, minFilter_clause hc' hq' hv]; rfl
+
+/-- THE QUIRK for every input: a non-base remaining denom whose converted minimum is ZERO is paid to NO lock after
+the gauge's first one (and, the cache being shared, to no lock of any later gauge of the epoch: `min_value_filter`). -/
+theorem zero_quote_pays_first_lock_only {m : MinVal} (hc : CacheOK m) {remain : Coins} (hrv : validCoins remain = true)
+    {d : Denom} (hb : d ≠ Gen.Incentives.BaseCoinUnit) (hq : assoc m.quotes d = some (some 0))
+    (hm : d ∈ remain.map (·.1)) (den : Int) (l : Lock) :
+    amountOf (lockCoins (minFilter (m.after remain)) remain den l.amount) d = 0 := by
+  rw [lockCoins_amount _ hrv, minFilter_after_zero_quote hc remain hb hq hm]; rfl
+
+/-- **an epoch pays exactly the property's clause when no converted minimum is zero**: the send queue is the fold,
+over the active gauges in order and their qualifying locks in order, of the floor shares that are worth the
+configured minimum converted through the route's quote (`worthMinimum`: no route ⇒ nothing), cache or not. -/
+theorem epoch_pays_clause_of_no_zero_quote {s s' : State} {now : Int} {q : Quotes} {locks : List Lock} {info : Info}
+    (hr : Reachable s) (h : epoch s now q locks = some (s', info)) (hz : NoZeroQuote q) :
+    ∃ snap : List Gauge, (∀ g ∈ snap, g ∈ s.gauges) ∧ (snap.map (·.id)).Nodup ∧
+      (∀ i, i ∈ snap.map (·.id) ↔ i ∈ refsIds s.active ∨
+          (i ∈ refsIds s.upcoming ∧ i ∉ refsIds (s.upcoming.filter (fun kv => decide (now < kv.1))))) ∧
+      info = (snap.flatMap (clausePays (worthMinimum q) locks)).foldl addLockRewards [] := by
+  obtain ⟨snap, k1, k2, k3, h3⟩ := epoch_snapshot hr h
+  refine ⟨snap, k1, k2, k3, ?_⟩
+  rw [distributeLoop_info h3, snapPays_eq_clausePays (CacheOK_empty q) hz h3]
+
+/-- REFUTED sub-claim (skipping "only amounts worth less than the configured minimum"): the minimum 10000uosmo
+converts to 0rewx (one rewx is worth more); three locks of 100 each, gauge 3000rewx: the clause owes 1000 each, the
+code pays the first lock (cache miss: `0 ≤ 1000`) and skips the two others (cache hit: the cached 0 reads "no route"). -/
+theorem zero_converted_minimum_skips_later_locks_witness :
+    let s0 := run (init ⟨[3600], ["lp"], ["rewx"]⟩ []) [.create true "lp" 3600 [("rewx", 3000)] 0 1]
+    let q : Quotes := [("rewx", some 0), ("uosmo", some 10000)]
+    let locks : List Lock := [⟨1, 0, none, 3600, "lp", 100, false⟩, ⟨2, 1, none, 3600, "lp", 100, false⟩, ⟨3, 2, none, 3600, "lp", 100, false⟩]
+    (epoch s0 10 q locks).map (fun r => received r.2) = some [(0, [("rewx", 1000)])] ∧
+    (s0.gauges.flatMap (clausePays (worthMinimum q) locks)).map (fun p => (p.receiver, p.coins)) =
+      [(0, [("rewx", 1000)]), (1, [("rewx", 1000)]), (2, [("rewx", 1000)])] := by decide +kernel
+
+set_option synthInstance.maxSize 1024 in
+/-- the cache is shared by the gauges of one `Distribute`: the first gauge's only lock is paid, the second gauge
+(other lock denom, two locks) pays NOBODY — and still counts the epoch as one of its two. -/
+theorem zero_converted_minimum_starves_later_gauge_witness :
+    (epoch (run (init ⟨[3600], ["lpa", "lpb"], ["rewx"]⟩ [])
+        [.create true "lpa" 3600 [("rewx", 3000)] 0 1, .create false "lpb" 3600 [("rewx", 4000)] 0 2])
+      10 [("rewx", some 0), ("uosmo", some 10000)]
+      [⟨1, 0, none, 3600, "lpa", 100, false⟩, ⟨2, 1, none, 3600, "lpb", 100, false⟩, ⟨3, 2, none, 3600, "lpb", 100, false⟩]).map
+      (fun r => (received r.2, r.1.gauges.map (fun g => (g.filled, g.distributed)))) =
+    some ([(0, [("rewx", 3000)])], [(1, [("rewx", 3000)]), (1, [])]) := by decide +kernel
+
+/-- REFUTED sub-claim (every active gauge pays at the epoch): the pool behind rewx's route cannot quote the minimum
+(a balancer pool returns an error for an output of 0): the whole hook fails — also for the unrelated uosmo gauge —
+and the state stays as it was (`failed_op_noop`), epoch after epoch. -/
+theorem failing_minimum_quote_blocks_every_gauge_witness :
+    let s0 := run (init ⟨[3600], ["lpa", "lpb"], ["rewx"]⟩ [])
+        [.create true "lpa" 3600 [("rewx", 3000)] 0 1, .create true "lpb" 3600 [("uosmo", 5000000)] 0 1]
+    let locks : List Lock := [⟨1, 0, none, 3600, "lpa", 100, false⟩, ⟨2, 1, none, 3600, "lpb", 100, false⟩]
+    epoch s0 10 [("rewx", none), ("uosmo", some 10000)] locks = none ∧
+    (epoch s0 10 [("uosmo", some 10000)] locks).map (fun r => received r.2) = some [(1, [("uosmo", 5000000)])] := by
+  decide +kernel
 
 /-- REFUTED sub-claim ("to the lock's reward receiver"): one owner, two qualifying locks, the second naming
 address 7 as its reward receiver — the whole 1000 goes to the owner (address 0), address 7 gets nothing
 (`distributionInfo.addLockRewards` keys the queue by OWNER and keeps the first lock's receiver). -/
 theorem payout_wrong_receiver_witness :
-    (epoch (run (init ⟨[3600], ["lp"], []⟩ []) [.create true "lp" 3600 [("uosmo", 1000)] 0 1]) 10 [("uosmo", 1)]
+    (epoch (run (init ⟨[3600], ["lp"], []⟩ []) [.create true "lp" 3600 [("uosmo", 1000)] 0 1]) 10 [("uosmo", some 1)]
       [⟨1, 0, none, 3600, "lp", 100, false⟩, ⟨2, 0, some 7, 3600, "lp", 100, false⟩]).map (fun r => received r.2)
       = some [(0, [("uosmo", 1000)])] := by decide +kernel
 
@@ -137,7 +252,7 @@ set_option synthInstance.maxSize 1024 in
 /-- REFUTED sub-claim (skipping "only amounts worth less than the configured minimum"): minimum 1, one lock,
 remaining 100 uosmo: nothing is paid and the epoch still counts as filled (`skipSpamGaugeDistribute`). -/
 theorem spam_rule_skips_payout_witness :
-    (epoch (run (init ⟨[3600], ["lp"], []⟩ []) [.create false "lp" 3600 [("uosmo", 100)] 0 2]) 10 [("uosmo", 1)]
+    (epoch (run (init ⟨[3600], ["lp"], []⟩ []) [.create false "lp" 3600 [("uosmo", 100)] 0 2]) 10 [("uosmo", some 1)]
       [⟨1, 0, none, 3600, "lp", 5, false⟩]).map (fun r => (received r.2, r.1.gauges.map (fun g => (g.filled, g.distributed))))
       = some ([], [(1, [])]) := by decide +kernel
 
@@ -176,7 +291,7 @@ theorem created_upcoming {s s' : State} {p : Bool} {dn : Denom} {du : Int} {c : 
 /-- **gauges become active at their start time**: at an epoch with block time `now`, an upcoming gauge stays
 upcoming iff `now` is before its start time; otherwise it joins the active set of this very epoch (and may
 already finish in it). -/
-theorem activation_at_start {s s' : State} {now : Int} {thr : Thr} {locks : List Lock} {info : Info}
+theorem activation_at_start {s s' : State} {now : Int} {thr : Quotes} {locks : List Lock} {info : Info}
     (hr : Reachable s) (h : epoch s now thr locks = some (s', info)) {g : Gauge} (hg : g ∈ s.gauges)
     (hu : g.id ∈ refsIds s.upcoming) :
     (g.id ∈ refsIds s'.upcoming ↔ now < g.start) ∧
@@ -221,7 +336,7 @@ theorem activation_at_start {s s' : State} {now : Int} {thr : Thr} {locks : List
 
 /-- **finished gauges pay nothing**: an epoch leaves the record of a finished gauge as it is (distributed coins,
 filled epochs), keeps it finished, and does not process it (it is not in the active snapshot of `epoch_receipts`). -/
-theorem finished_pays_nothing {s s' : State} {now : Int} {thr : Thr} {locks : List Lock} {info : Info}
+theorem finished_pays_nothing {s s' : State} {now : Int} {thr : Quotes} {locks : List Lock} {info : Info}
     (hr : Reachable s) (h : epoch s now thr locks = some (s', info)) {g : Gauge} (hg : g ∈ s.gauges)
     (hf : g.id ∈ refsIds s.finished) :
     g ∈ s'.gauges ∧ g.id ∈ refsIds s'.finished ∧ g.id ∉ refsIds s'.active ∧ g.id ∉ refsIds s'.upcoming := by
@@ -322,7 +437,7 @@ FULL statement `finished → filled = numEpochs` (every counted epoch was a proc
 `checkFinishDistribution` tests the pre-distribution snapshot with `filled + 1`, assuming the epoch was counted,
 also when `distributeInternal` returned early for lack of locks — see `finishes_without_paying_witness`.
 With a qualifying lock in that last epoch (2) gives `filled = numEpochs` on finishing. -/
-theorem finishes_after_exactly_n_paying_epochs_partial {s s' : State} {now : Int} {thr : Thr} {locks : List Lock}
+theorem finishes_after_exactly_n_paying_epochs_partial {s s' : State} {now : Int} {thr : Quotes} {locks : List Lock}
     {info : Info} (hr : Reachable s) (h : epoch s now thr locks = some (s', info)) {g : Gauge} (hg : g ∈ s.gauges)
     (hnp : g.perpetual = false)
     (hact : g.id ∈ refsIds s.active ∨ (g.id ∈ refsIds s.upcoming ∧ g.start ≤ now)) :
@@ -366,7 +481,7 @@ theorem finishes_after_exactly_n_paying_epochs_partial {s s' : State} {now : Int
       omega
     · intro he
       exact ⟨g, hgs, (finishing_iff g).mpr ⟨hnp, by omega⟩, rfl⟩
-  have hres := distributeLoop_result h3 F.snapMem F.snapNodup hgs
+  obtain ⟨m, _, _, hne, hres1, hres2⟩ := distributeLoop_result h3 F.snapMem F.snapNodup hgs
   refine ⟨?_, ?_, ?_, ?_⟩
   · rw [F.finIff, hFiff]
     constructor
@@ -379,17 +494,17 @@ theorem finishes_after_exactly_n_paying_epochs_partial {s s' : State} {now : Int
     · exact absurd (hFiff.mp h') hne
     · exact h'
   · intro hl hS
-    cases hd : distributeGauge thr locks g with
-    | none => exact absurd ⟨_, h3⟩ (loop_fails hgs hd)
+    cases hd : distributeGauge m locks g with
+    | none => exact absurd hd hne
     | some r =>
       obtain ⟨total, pays, rfl⟩ := distributeGauge_writes hd hl hS
-      exact ⟨total, hres.1 total pays hd, rfl⟩
+      exact ⟨total, hres1 total pays hd, rfl⟩
   · intro hl
-    cases hd : distributeGauge thr locks g with
-    | none => exact absurd ⟨_, h3⟩ (loop_fails hgs hd)
+    cases hd : distributeGauge m locks g with
+    | none => exact absurd hd hne
     | some r =>
       cases r with
-      | none => exact hres.2 hd
+      | none => exact hres2 hd
       | some tp =>
         obtain ⟨total, pays⟩ := tp
         obtain ⟨_, _, _, _, hne, _⟩ := distributeGauge_written hd
@@ -399,8 +514,23 @@ theorem finishes_after_exactly_n_paying_epochs_partial {s s' : State} {now : Int
 is moved to the finished store with `filled = 1 < numEpochs = 2` and 500 of its 1000 uosmo undistributed. -/
 theorem finishes_without_paying_witness :
     let s1 := run (init ⟨[3600], ["lp"], []⟩ []) [.create false "lp" 3600 [("uosmo", 1000)] 0 2,
-                .epoch 10 [("uosmo", 1)] [⟨1, 0, none, 3600, "lp", 100, false⟩], .epoch 20 [("uosmo", 1)] []]
+                .epoch 10 [("uosmo", some 1)] [⟨1, 0, none, 3600, "lp", 100, false⟩], .epoch 20 [("uosmo", some 1)] []]
     (refsIds s1.finished, s1.gauges.map (fun g => (g.numEpochs, g.filled, g.distributed))) = ([1], [(2, 1, [("uosmo", 500)])]) := by
+  decide +kernel
+
+set_option synthInstance.maxSize 2048 in
+/-- REFUTED consequence (a deposit can be paid out): the gauge of `finishes_without_paying_witness` sits in the
+finished store with `filled = 1 < 2`; `Gauge.IsFinishedGauge` looks at the FIELDS, so `AddToGaugeRewards` accepts
+777 more uosmo; a later epoch with a qualifying lock pays nothing (`finished_forever`): 1277 uosmo stay in the module
+account for good. -/
+theorem topup_accepted_by_finished_gauge_witness :
+    let s1 := run (init ⟨[3600], ["lp"], []⟩ []) [.create false "lp" 3600 [("uosmo", 1000)] 0 2,
+                .epoch 10 [("uosmo", some 1)] [⟨1, 0, none, 3600, "lp", 100, false⟩], .epoch 20 [("uosmo", some 1)] []]
+    refsIds s1.finished = [1] ∧
+    ((addToGauge s1 1 [("uosmo", 777)] 25).bind (fun s2 =>
+        (epoch s2 30 [("uosmo", some 1)] [⟨2, 1, none, 3600, "lp", 100, false⟩]).map
+          (fun r => (received r.2, r.1.gauges.map (fun g => (g.coins, g.distributed)), r.1.balance)))) =
+      some ([], [([("uosmo", 1777)], [("uosmo", 500)])], [("uosmo", 1277)]) := by
   decide +kernel
 
 /-! ## failed operations -/
@@ -440,7 +570,7 @@ minimum: concrete payouts, floor remainders stay in the gauge, the 1-epoch gauge
 example :
     (epoch (run (init ⟨[3600, 7200], ["lp"], ["rewa"]⟩ [])
         [.create false "lp" 3600 [("rewa", 1000), ("uosmo", 3000)] 100 3, .create true "lp" 7200 [("uosmo", 500)] 50 1])
-      100 [("rewa", 20), ("uosmo", 10)]
+      100 [("rewa", some 20), ("uosmo", some 10)]
       [⟨1, 0, none, 3600, "lp", 100, false⟩, ⟨2, 1, some 3, 7200, "lp", 300, false⟩, ⟨3, 1, some 3, 7200, "lp", 100, true⟩]).map
       (fun r => (received r.2, r.1.gauges.map (fun g => (g.filled, g.distributed)), refsIds r.1.active, r.1.balance))
     = some ([(0, [("rewa", 66), ("uosmo", 200)]), (3, [("rewa", 266), ("uosmo", 1300)])],
@@ -453,10 +583,10 @@ example : Reachable (run (init ⟨[3600], ["lp"], []⟩ [("uosmo", 7)]) [.create
 /-- a non-perpetual 2-epoch gauge with locks in both epochs finishes after exactly two paying epochs, fully paid. -/
 example :
     let s1 := run (init ⟨[3600], ["lp"], []⟩ []) [.create false "lp" 3600 [("uosmo", 1001)] 15 2,
-                .epoch 10 [("uosmo", 1)] [⟨1, 0, none, 3600, "lp", 100, false⟩],
-                .epoch 20 [("uosmo", 1)] [⟨1, 0, none, 3600, "lp", 100, false⟩],
-                .epoch 30 [("uosmo", 1)] [⟨1, 0, none, 3600, "lp", 100, false⟩],
-                .epoch 40 [("uosmo", 1)] [⟨1, 0, none, 3600, "lp", 100, false⟩]]
+                .epoch 10 [("uosmo", some 1)] [⟨1, 0, none, 3600, "lp", 100, false⟩],
+                .epoch 20 [("uosmo", some 1)] [⟨1, 0, none, 3600, "lp", 100, false⟩],
+                .epoch 30 [("uosmo", some 1)] [⟨1, 0, none, 3600, "lp", 100, false⟩],
+                .epoch 40 [("uosmo", some 1)] [⟨1, 0, none, 3600, "lp", 100, false⟩]]
     (refsIds s1.finished, s1.gauges.map (fun g => (g.filled, g.distributed)), s1.balance) = ([1], [(2, [("uosmo", 1001)])], []) := by
   decide +kernel
 
